@@ -1,6 +1,7 @@
 import SignaloModel.Model.Value
 import SignaloModel.Model.SinkModels
 import SignaloModel.Model.FloatVal
+import SignaloModel.Model.IntVal
 import SignaloModel.Model.Registry
 import SignaloModel.Proofs.SourcesTree
 /-! Driver: instance records of sources, sinks and pipes. Models whose state type lives in `Type 1`
